@@ -203,6 +203,44 @@ func c03Gen(c *core.Ctx) func(yield func(c03Case) bool) {
 		if !ok {
 			return
 		}
+		// components that refer to themselves (a by-name point or a slice that includes the holder):
+		// a self reference is normally refused, but a component substituted at its early reference is
+		// handed its own early substitute, which then has the component itself among its holders.
+		// All 2-node graphs with self references under every combination of timings, and all 3-node
+		// graphs where the substituted node refers to itself
+		allGraphs(2, three, true, func(e [][]int) bool {
+			if e[0][0] == 0 && e[1][1] == 0 {
+				return true
+			}
+			return emit(2, e, 2, [][]int{{0, 1}, {1, 0}}, "n2-self", 0)
+		})
+		if !ok {
+			return
+		}
+		allGraphs(3, three, false, func(e [][]int) bool {
+			for node := 0; node < 3; node++ {
+				for _, self := range []int{scen.EName, scen.ESlice} {
+					g := make([][]int, 3)
+					for i := range g {
+						g[i] = append([]int{}, e[i]...)
+					}
+					g[node][node] = self
+					for plan := 1; plan < scen.NumWrapPlans; plan++ {
+						w := []int{0, 0, 0}
+						w[node] = plan
+						for _, base := range [][]int{{0, 1, 2}, {2, 1, 0}} {
+							if ok = yield(c03Case{scen.GraphProg{N: 3, Edges: g, Wrap: w, Base: base, Family: "n3-self"}, 0}); !ok {
+								return false
+							}
+						}
+					}
+				}
+			}
+			return true
+		})
+		if !ok {
+			return
+		}
 		// func-shaped substitutes (closures implementing the interface): two closures of one literal
 		// are two versions although they share a code pointer
 		allGraphs(3, three, false, func(e [][]int) bool {
